@@ -416,12 +416,20 @@ def run_case(case):
             if p == 0:
               first_ii[w] = (ratio, msg)
               if ratio > cmp.VIOL_FACTOR and not stale_candidate:
-                rec.viol(f"mujoco_cost_gap:{solver}", msg, qacc=P["qacc"][:8], ref=refs[w]["Pj"]["qacc"][:8])
+                sig = f"mujoco_cost_gap:{solver}"
+                if m.is_sparse and cw and first_i_ok.get(w, False) and E.only_weldparent_D_differs(mjm, P, refs[w]["Pj"]):
+                  sig = "mujoco_cost_gap:connect_weld:sparse_path_uses_invweight0_of_weld_parent"
+                rec.viol(sig, msg, qacc=P["qacc"][:8], ref=refs[w]["Pj"]["qacc"][:8])
               elif ratio > 1 and not (ratio > cmp.VIOL_FACTOR):
                 rec.inconcl("mujoco cost gap in grey zone")
             else:
               if ratio > cmp.VIOL_FACTOR:
-                rec.viol(f"mujoco_cost_gap:{solver}", msg, qacc=P["qacc"][:8], ref=refs[w]["Pj"]["qacc"][:8])
+                sig = f"mujoco_cost_gap:{solver}"
+                if m.is_sparse and cw and first_i_ok.get(w, False) and E.only_weldparent_D_differs(mjm, P, refs[w]["Pj"]):
+                  # MJWarp solved ITS rows optimally; they differ from MuJoCo's only in the D of connect/weld rows, by
+                  # exactly the invweight0 ratio body / weld parent (C05 finding, sparse path)
+                  sig = "mujoco_cost_gap:connect_weld:sparse_path_uses_invweight0_of_weld_parent"
+                rec.viol(sig, msg, qacc=P["qacc"][:8], ref=refs[w]["Pj"]["qacc"][:8])
               elif w in first_ii and first_ii[w][0] > cmp.VIOL_FACTOR and stale_candidate:
                 # the first call disagreed, the repeat call (identical state, velocity-stage fields now fresh) agrees.
                 # Narrow mechanism test: the first solve was optimal for ITS rows (certificate i clean) and the aref of
